@@ -1569,10 +1569,14 @@ void OPNMIDIplay::killSustainingNotes(int32_t midCh, int32_t this_adlchn, uint32
             if((midCh < 0 || jd.loc.MidCh == midCh)
                 && ((jd.sustained & sustain_type) != 0))
             {
+                jd.sustained &= ~sustain_type;
+                // A key that is still down keeps its note: sostenuto marks sounding notes before their keys are released
+                MIDIchannel::notes_iterator n = m_midiChannels[jd.loc.MidCh].find_activenote(jd.loc.note);
+                if(!n.is_end() && n->value.phys_find(c))
+                    continue;
                 int midiins = '?';
                 if(hooks.onNote)
                     hooks.onNote(hooks.onNote_userData, static_cast<int>(c), jd.loc.note, midiins, 0, 0.0);
-                jd.sustained &= ~sustain_type;
                 if(jd.sustained == OpnChannel::LocationData::Sustain_None)
                     m_chipChannels[c].users.erase(j);//Remove only when note is clean from any holders
             }
